@@ -89,6 +89,33 @@ def run(ctx):
                            "%s sends response bytes with %s and only tests the result for Ok: a transport that accepts the buffer in pieces truncates the response" % (n, decl),
                            t["span"]["file"], t["span"]["line"], n)
 
+    # ---- R1b: a successful write is flushed before the function returns
+    r1b = chk.rule("R1b-flushed-after-write", "from every write_all on the transport, on the paths where it returned Ok, the function cannot return without a Write::flush on the transport (the transport is any `impl Write`: bytes left in a buffering writer have not reached the peer)", floor=1)
+    from ..loops import feasible_reach
+    for n in local:
+        fn0 = F.fns[n]
+        if not any((t.get("callee") or "") == "std::io::Write::write_all" for _, t in fn0.calls()):
+            continue
+        fn = ctx.inl(fn0)
+        cfg = cfg_of(fn)
+        def _transport(t):
+            recv = (t.get("arg_tys") or [""])[0]
+            return not re.search(r"(Vec<u8>|Stdout|Stderr|Cursor<|String|BufWriter<std::io::Std)", recv)
+        flushes = {bid for bid, t in fn.calls() if (t.get("callee") or "") == "std::io::Write::flush" and _transport(t)}
+        k = 0
+        for bid, t in fn.calls():
+            if (t.get("callee") or "") != "std::io::Write::write_all" or not _transport(t) or cfg.blocks[bid].get("cleanup"):
+                continue
+            k += 1
+            d = t.get("dest")
+            init = {d["l"]: "Ok", ("adt", d["l"]): "std::result::Result"} if d is not None and not d["p"] else None
+            reach = feasible_reach(cfg, start_block=bid, avoid=flushes, init=init)
+            rets = None if reach is None else sorted(b for b in reach if cfg.blocks[b]["term"]["k"] == "return")
+            ok = reach is None or not rets
+            r1b.instance({"fn": n, "write_line": t["span"]["line"], "flush_sites": len(flushes), "returns_reached_without_flush": rets if rets is not None else "walk too large (assumed fine)"}, ok)
+            if not ok:
+                r1b.violate("C05|R1b|%s|%d" % (n, k), "%s can return after a successful write_all (line %d) without flushing the transport" % (n, t["span"]["line"]), t["span"]["file"], t["span"]["line"], n)
+
     # ---- R2 reflected text cannot split headers
     r2 = chk.rule("R2-parsed-headers-are-stripped", "every Header built by the request parser has name and value produced by the CR/LF stripper (or constants); the stripper removes both \\r and \\n", floor=2)
     parse_roots = [n for n in ("request::Request::parse", "request::Request::parse_request") if n in F.fns]
